@@ -24,7 +24,7 @@ COMPONENTS = {"real": ["collision.c searches (direct, line, tree, linetree), shu
 ASSUMPTIONS = ["integrator leapfrog with gravity off: one step = straight-line drift + search; the state the search sees is captured by a post_timestep_modifications callback and the documented boundary wrap is applied to it by the model",
                "pairs within a relative band of 1e-9 of the overlap / approach thresholds are don't-care",
                "with a mutating resolver a must-pair may be skipped iff one of its members was removed or already merged earlier in the same step (built-in behaviour: last_collision == t)"]
-PROBES = ["cluster_ge3", "simultaneous_collisions_sharing_particle", "pair_across_periodic_image", "giant_and_dust", "zero_radius", "orders_differ", "merges", "bounces", "tree_mode", "line_mode", "removed_then_remapped_index"]
+PROBES = ["cluster_ge3", "simultaneous_collisions_sharing_particle", "pair_across_periodic_image", "giant_and_dust", "zero_radius", "orders_differ", "merges", "bounces", "tree_mode", "line_mode", "removed_then_remapped_index", "twins_planted"]
 
 MODES = ["direct", "line", "tree", "linetree"]
 
@@ -54,7 +54,8 @@ def generate(rng, tier, index):
     structure = []
     nclusters = c.randint(1, 4)
     for k in range(nclusters):
-        kind = c.weighted([("pair", 3), ("chain", 2), ("clique", 3), ("giant", 1.5), ("image", 2 if boundary == "periodic" and ng else 0), ("cross", 2 if mode in ("line", "linetree") else 0), ("separating", 1)])
+        kind = c.weighted([("pair", 3), ("chain", 2), ("clique", 3), ("giant", 1.5), ("image", 2 if boundary == "periodic" and ng else 0), ("cross", 2 if mode in ("line", "linetree") else 0), ("separating", 1),
+                            ("twins", 3 if mode in ("tree", "linetree") else 0.5)])
         cx, cy, cz = rpos(1.5)
         r0 = c.loguniform(0.02, 0.3)
         structure.append(kind)
@@ -86,6 +87,18 @@ def generate(rng, tier, index):
             y, z = c.uniform(-Ly / 2 + 1, Ly / 2 - 1), c.uniform(-Lz / 2 + 1, Lz / 2 - 1)
             add(Lx / 2 - 0.4 * r0, y, z, 0.2, 0, 0, r0)
             add(-Lx / 2 + 0.4 * r0, y, z, -0.2, 0, 0, r0)
+        elif kind == "twins":
+            # two tight twins (separation << radius, so each twin sits in a tiny non-leaf cell of its own) whose members overlap the
+            # other twin's members only just: the tree walks must not prune the other twin's cell by looking at the searcher's radius alone
+            r1 = r0 * c.uniform(0.8, 1.0)
+            d = (r0 + r1) * c.choice([0.8, 0.9, 0.97, 0.995])
+            ax = c.choice([(1, 0, 0), (0, 1, 0), (0, 0, 1), (0.6, 0.8, 0), (0.577, 0.577, 0.577)])
+            dl = r0 * c.choice([1e-3, 1e-2, 5e-2])
+            va = c.choice([0.05, 0.5])
+            for sgn, rr in ((-1, r0), (1, r1)):
+                for tw in range(c.randint(1, 2) if sgn < 0 else 2):
+                    add(cx + sgn * 0.5 * d * ax[0] + tw * dl, cy + sgn * 0.5 * d * ax[1] + tw * dl * 0.7, cz + sgn * 0.5 * d * ax[2] - tw * dl * 0.4,
+                        -sgn * va * ax[0], -sgn * va * ax[1], -sgn * va * ax[2], rr)
         elif kind == "cross":
             v = 0.8 * r0 / dt * c.uniform(2, 6)
             add(cx - 0.5 * v * dt, cy, cz, v, 0, 0, r0 * 0.5)
@@ -346,6 +359,8 @@ def execute(case, ctx):
             must, maybe = detect(seen_state)
             if any(r == 0.0 for (h, x, y, z, vx, vy, vz, m, r) in seen_state):
                 probe("zero_radius")
+            if st == 0 and "twins" in case.get("structure", ()):
+                probe("twins_planted")
             rs = sorted(r for (h, x, y, z, vx, vy, vz, m, r) in seen_state)
             if len(rs) >= 3 and rs[-1] > 20 * max(rs[-2], 1e-12):
                 probe("giant_and_dust")
